@@ -37,6 +37,9 @@ def dispatch_table():
     IsoDateWord = type("IsoDateWord", (type("DateWord", (T.Word,), {}),), {})
     GeoBoundingBoxRange = type("GeoBoundingBoxRange", (T.Range,), {})
     classes += [IsoDateWord, type("HTTPSUrlWord", (T.Word,), {}), GeoBoundingBoxRange, type("MyVeryLongOrOperation", (T.OrOperation,), {})]
+    # node classes with several bases: the handler is looked for along the whole method resolution order
+    Annotated, Tagged = type("Annotated", (), {}), type("Tagged", (), {})
+    classes += [type("AnnotatedWord", (Annotated, T.Word), {}), type("TaggedWord", (T.Word, Tagged), {}), type("TaggedGroup", (Tagged, Annotated, T.Group), {})]
     for cls, style in itertools.product(classes, ("default names", "prefix and fallback renamed")):
         mro = [c for c in cls.__mro__ if c is not object]
         prefix = "visit_" if style == "default names" else "on_"
